@@ -12,10 +12,21 @@ flag values named by several members); the equality laws (`a == b`, `b == a`, `!
 pair of members of the class, between members and their integers, and between every member and the objects obtained from
 data for a value (scalar, `E[2]` element, structure field / array element / bit-field, interpreted and compiled, `E(int)`,
 `a | b`); objects parsed for one underlying value must be mutually equal with equal hashes.
+
+Shadowing probes (harness/v4_c12.py) for "explicit values may be expressions over earlier members" and the implicit continuation on
+an object that already holds constants: a history of earlier `load()` calls / `cs.consts[...]` assignments registers constants
+(`#define` with literal or expression, members of anonymous enums and flags, values set by hand) whose names coincide with member
+names of the enum/flag declared afterwards (in a later load or further down the same text); later members refer to those earlier
+members in their initialisers (`NEXT = BASE + 1`, `ALL = LIMIT | X`, mixed with free constants that must still resolve) or continue
+from them implicitly.  The members declared so far win: the member table must be the C numbering computed with the declaration's own
+members in scope (independent oracle, the same declaration on a fresh object, the Lean fold given all constants), and the underlying
+bytes of every member value must parse - as scalar, `E(int)`, structure field, array element, bit-field; interpreted / compiled /
+aligned; both endiannesses; 11 underlying types and the default type - to an object equal to exactly the members declared with that
+value, named like one of them, that dumps back to the bytes.
 """
 from __future__ import annotations
 
-from .. import common, impl, t3_c12
+from .. import common, impl, t3_c12, v4_c12
 from ..common import A, Case, Result, mkrng, parse_sexp, run_driver, sx
 
 BASES = {"uint8": (1, False), "int8": (1, True), "uint16": (2, False), "int16": (2, True), "uint32": (4, False), "int32": (4, True),
@@ -71,7 +82,12 @@ def run(env) -> Result:
                 "incl. cross-class comparisons; declarations with values named by several members (aliases by literal, name, expression, "
                 "implicit numbering; zero and composite flag values): == / != in both directions between every pair of members, members and "
                 "ints, members and values obtained from data (scalar, array element, struct field, bit-field, E(int), a | b), equal hashes "
-                "for parses of one underlying value. distinct = (declaration, value); non-trivial = >= 2 members")
+                "for parses of one underlying value; declarations on an object that already holds constants (#define, anonymous enum/flag members, "
+                "cs.consts set by hand; registered by earlier load() calls or earlier in the same text) named like members of the declaration, "
+                "with later members referring to those earlier members or continuing from them: member table = C numbering with the "
+                "declaration's own members in scope = table on a fresh object = Lean fold; every member value parses (scalar, E(int), struct "
+                "field, array element, bit-field; interpreted/compiled/aligned) to an object equal to exactly its members, named like one, "
+                "dumping back to the bytes. distinct = (declaration, value); non-trivial = >= 2 members")
     dc = impl.dc()
     rnd = mkrng(env["seed"], "c12")
     tier = env["tier"]
@@ -165,6 +181,8 @@ def run(env) -> Result:
             viol(f"structure with enum fields raises {type(e).__name__}: {e}", dict(data, bytes=raw.hex()), "F22" if (is_flag and signed) else None)
     # declarations with aliases: equality laws between same-valued members and values obtained from data (own PRNG stream)
     t3_c12.alias_probes(mkrng(env["seed"], "c12-alias"), res, viol, dc, tier, oracle_numbering)
+    # members named like constants the object already holds: the members declared so far win (own PRNG stream)
+    v4_c12.shadow_probes(mkrng(env["seed"], "c12-shadow"), res, viol, dc, tier, oracle_numbering, lines, metas)
     # cross-class comparisons: never equal, whatever the kinds and values
     for _ in range(200 if tier == "quick" else 3000):
         (E1, f1, b1, _, i1), (E2, f2, b2, _, i2) = rnd.sample(classes, 2) if len(classes) >= 2 else (classes[0], classes[0])
